@@ -48,8 +48,9 @@ import (
 //   - a real InMemCollector with two workers on a fake clock and a real
 //     SamplerFactory; the upstream transmission records what is sent.
 // Observed: the fields every span has extracted when the router hands it to
-// the collector, and the reason / sample key the transmitted spans carry
-// (AddRuleReasonToTrace). Barriers are the collector's verif hook events.
+// the collector (none handed over = the request was refused), and the reason /
+// sample key the transmitted spans carry (AddRuleReasonToTrace). Barriers are
+// the collector's verif hook events.
 // ---------------------------------------------------------------------------
 
 const (
